@@ -85,8 +85,12 @@ class Checker:
 
     @contextlib.contextmanager
     def guard(self, rule, instance, site=""):
+        from .ctx import DefiniteBug
+
         try:
             yield
+        except DefiniteBug as e:
+            self.violation(rule, instance, e.site or site, "evaluating this operation always fails: %s" % e.exc)
         except Unsupported as e:
             self.undecided(rule, instance, e.site or site, "outside analyser vocabulary: %s" % e)
         except PathBudget as e:
